@@ -7,8 +7,9 @@
      fm_ok fm buf        the entries to recover are not marked out-of-date, have a recorded hash (BLK/REP), index the buffer
      hv_ok fm v          the recorded vector v passes the hash test of every entry (hash over the block length + zero padding)
      cf_junk fm          collision freedom, part 1: a junk reconstruction (id >= JBASE) never passes a hash test
-     cf_rec fm rec v     collision freedom, part 2: a block of a vector encoded by one of the parity blocks READ passes the
-                         hash test of an entry only if it is the recorded block (finite: the blocks in `rec`)
+     cf_rec fm rec v     collision freedom, part 2: a block (at any position: with plain xor parity a block MOVED inside the stripe
+                         can come out, FixModel.reconstruct) of a vector encoded by one of the parity blocks READ passes the
+                         hash test of an entry only if it is the recorded block of that entry (finite: the blocks in `rec`)
      cf_search ...       a block fetched from another file of the array (state_search_fetch) is the recorded one
      good_level v rec l  the parity block read for level l is the encoding of v
      restored F v b b'   b' = b with the positions of F replaced by v;  full v b b' : b' = v on the whole buffer
